@@ -300,11 +300,11 @@ func (r *vC15Run) writePolicy(entries [][]string) {
 	var b strings.Builder
 	fmt.Fprintf(&b, "p, probe, probe, v%d-%d\n", r.id, r.version)
 	for k, e := range entries {
-		if r.tornNext && k == (len(entries)+1)/2 {
+		fmt.Fprintf(&b, "p, %s, %s, %s\n", r.who(e[0]), r.real(e[1]), e[2])
+		if r.tornNext && k == (len(entries)-1)/2 {
 			// the write stopped here once and was resumed by something else: a line no CSV reader accepts
 			fmt.Fprintf(&b, "p, \"%s, %s\n", r.who(e[0]), r.real(e[1]))
 		}
-		fmt.Fprintf(&b, "p, %s, %s, %s\n", r.who(e[0]), r.real(e[1]), e[2])
 	}
 	if r.tornNext && len(entries) == 0 {
 		b.WriteString("p, \"probe, probe\n")
@@ -648,30 +648,27 @@ func (r *vC15Run) callTLS(c map[string]interface{}) (string, string) {
 			_, err = sub.Recv() // the empty message that confirms the subscription, or the status
 		}
 		if err == nil {
-			// a subscription that cannot be served ends at once
-			ended := make(chan error, 1)
-			go func() { _, e := sub.Recv(); ended <- e }()
-			select {
-			case err = <-ended:
-				if err == nil {
-					err = fmt.Errorf("unexpected message")
-				}
-			case <-time.After(80 * time.Millisecond):
-			}
-		}
-		if err != nil {
-			scancel()
-		} else {
+			// ONE reader for the life of the stream (gRPC allows a single receiver per stream); a subscription
+			// that cannot be served ends at once with a status
 			held := &vC15Sub{owner: vStr(c, "c"), stream: vStr(c, "s"), group: vBool(c, "grp"), cancel: scancel, done: make(chan struct{})}
 			go func() {
 				for {
 					if _, e := sub.Recv(); e != nil {
+						held.err = e
 						close(held.done)
 						return
 					}
 				}
 			}()
-			r.subs = append(r.subs, held)
+			select {
+			case <-held.done:
+				err = held.err
+			case <-time.After(80 * time.Millisecond):
+				r.subs = append(r.subs, held)
+			}
+		}
+		if err != nil {
+			scancel()
 		}
 	case "JoinConsumerGroup":
 		_, err = g.JoinConsumerGroup(ctx, &client.JoinConsumerGroupRequest{GroupId: r.real("g1"), ConsumerId: vStr(c, "c"),
@@ -825,8 +822,11 @@ func (r *vC15Run) generic(m, who string) (string, string) {
 // ---- set-up of the start situation (authorisation off) ---------------------------
 
 func (r *vC15Run) setup(cfg map[string]interface{}) {
-	r.srv.config.TLSClientAuthz = false
-	defer func() { r.srv.config.TLSClientAuthz = true }()
+	// the state of a server with authorisation switched off: the flag is off AND no enforcer exists (a handler
+	// may gate on either); both are put back afterwards
+	enf := r.srv.authzEnforcer
+	r.srv.config.TLSClientAuthz, r.srv.authzEnforcer = false, nil
+	defer func() { r.srv.config.TLSClientAuthz, r.srv.authzEnforcer = true, enf }()
 	api := r.srv.api
 	must := func(what string, err error) {
 		if err != nil {
